@@ -91,6 +91,21 @@ Proof.
 Qed.
 Print Assumptions in_domainb_sound.
 
+(* [history] the file written from a table that was loaded from a written file (held in any well-formed
+   layout) conforms again: format-version (2, 1), nnz, both copies decode to the original matrix *)
+Theorem second_generation_conforms : forall st genby date f0 r,
+  wf_state st -> meta_ok st -> type_in_vocab st -> text genby -> text date ->
+  wf_cs r -> matrix_of f0 r = st_mat st ->
+  length (st_oids st) = (match f0 with CSR => major r | CSC => minor r end) ->
+  length (st_sids st) = (match f0 with CSR => minor r | CSC => major r end) ->
+  exists f,
+    to_hdf5 (restate (reloaded st genby date) f0 r) genby date = ROk f /\ conforms f
+    /\ get_attr (attrs f) b_format_version = Some (AInts [2%Z; 1%Z])
+    /\ get_attr (attrs f) b_nnz = Some (AInt (Z.of_nat (count_nonzero (st_mat st))))
+    /\ spec_decode_csr f = Some (st_mat st) /\ spec_decode_csc f = Some (st_mat st).
+Proof. exact Hdf5Proofs.second_generation_conforms. Qed.
+Print Assumptions second_generation_conforms.
+
 (* [more] sort_indices keeps the matrix and sorts every segment *)
 Theorem sort_indices_ok : forall r, wf_cs r ->
   wf_cs (sort_indices r) /\ sorted_cs (sort_indices r) /\ dense_of (sort_indices r) = dense_of r
